@@ -428,6 +428,12 @@ fn c01_flex_u32_u8() {
     const N: usize = 9; // BOUNDED: buffer <= 9 bytes (slot 4 + payload 4 + 1)
     let (len, off) = any_len_off(N, 4);
     let b = sym_slice(len, 4, off, N);
+    if off == 0 && len >= 4 && b[0] >= 1 && b[0] <= 3 {
+        // D34: an offset smaller than the 4-byte slot can never become valid: it must not look like "send more bytes"
+        let r = FlexVec::<u32, u8>::validate(b);
+        assert!(matches!(r, Err(ref e) if e.kind != ErrorKind::InsufficientSize), "C10,C02: a malformed offset is reported as InsufficientSize");
+        assert!(matches!(r, Err(ref e) if e.pos == 0), "C19: a malformed offset is not reported at its slot");
+    }
     if let Ok(v) = FlexVec::<u32, u8>::from_bytes(b) {
         let mut k = 0;
         let mut acc = 0u32;
